@@ -101,6 +101,7 @@ def eval_adverb_each_index(f, a, op, backend):
     if is_empty(a):
         return a
     if is_iterable(a):
+        a = backend.str_to_chr_arr(a) if isinstance(a,str) else a
         r = [f(backend.kg_asarray([i, x])) for i, x in enumerate(a)]
         return backend.kg_asarray(r)
     return f(backend.kg_asarray([0, a]))
@@ -127,6 +128,8 @@ def eval_adverb_each2(f, a, b):
         return bknp.asarray([]) if is_list(a) or is_list(b) else ""
     if is_atom(a) and is_atom(b):
         return f(a,b)
+    a = [KGChar(c) for c in a] if isinstance(a,str) else a
+    b = [KGChar(c) for c in b] if isinstance(b,str) else b
     r = bknp.asarray([f(x,y) for x,y in zip(a,b)])
     return ''.join(r) if r.dtype == '<U1' else r
 
@@ -284,6 +287,8 @@ def eval_adverb_over_neutral(f, a, b):
         return a
     if is_atom(b):
         return f(a,b)
+    if isinstance(b,str):
+        b = [KGChar(c) for c in b]
     return functools.reduce(f,b[1:],f(a,b[0]))
 
 
@@ -314,6 +319,8 @@ def eval_adverb_scan_over_neutral(f, a, b, backend):
         return a
     if is_atom(b):
         b = [b]
+    elif isinstance(b,str):
+        b = [KGChar(c) for c in b]
     b = [f(a,b[0]), *b[1:]]
     r = list(itertools.accumulate(b,f))
     q = backend.kg_asarray(r)
